@@ -156,7 +156,7 @@ class Models(object):
                 return lambda ex, args, inst: (_ for _ in ()).throw(Terminal('trap', 0))
             return None
         simple = {
-            'exit': m_exit, 'abort': m_abort, '__cxa_throw': m_throw, '__cxa_allocate_exception': m_alloc_exc,
+            'exit': m_exit, 'abort': m_abort, '_Exit': m_quick_exit, '_exit': m_quick_exit, 'quick_exit': m_quick_exit, '__cxa_throw': m_throw, '__cxa_allocate_exception': m_alloc_exc,
             '__cxa_atexit': lambda ex, args, inst: 0, '__assert_fail': m_assert_fail, '__cxa_pure_virtual': m_pure,
             'strcpy': m_strcpy, 'strlen': m_strlen, 'strncpy': m_strncpy, 'strcmp': m_strcmp, 'memcpy': m_memcpy_ret,
             'printf': m_printf, 'puts': m_printf, 'putchar': m_printf, 'tolower': m_tolower, 'toupper': m_toupper,
@@ -244,6 +244,12 @@ class Models(object):
 def m_exit(ex, args, inst):
     ex.st.event('exit', args[0])
     raise Terminal('exit', args[0])
+
+
+def m_quick_exit(ex, args, inst):
+    # termination WITHOUT flushing stdio/iostream buffers and without static destructors: not the exit(code) the library documents
+    ex.st.event('exit-without-flush', args[0])
+    raise Terminal('_Exit', args[0])
 
 
 def m_abort(ex, args, inst):
